@@ -117,12 +117,12 @@ func (s *verifSched) checkDedup(strict bool) {
 // polls / submissions (new or duplicate: the bytes are symbolic) at the yield points of the round, up
 // to `faults` storage/lock failures; a second round; optional cache loss or rollback; a crash and a
 // restart; a third round. Every acknowledgement is checked at its instant and again at the end.
-func VerifC02(n0, faults, actions, cacheLoss int) {
+func VerifC02(n0, faults, actions, cacheLoss, dups int) {
 	w := newWorld(faults, 0)
 	w.clockMode = 1
 	l, inst := w.bootstrap(n0)
 	ctx := context.Background()
-	s := &verifSched{w: w, l: l, actions: actions, maxSubs: 3, lc: 3, distinct: faults > 0 && cacheLoss == 0}
+	s := &verifSched{w: w, l: l, actions: actions, maxSubs: 3, lc: 3, distinct: dups == 0}
 	if !s.distinct {
 		s.lc = 2
 	}
